@@ -983,13 +983,25 @@ findall_with_existential(Template, Goal, PairedSolutions, Witnesses0, Witnesses)
        (  Goal1 = _ ^ _  ) ->
        rightmost_power(Goal1, Goal2, ExistentialVars0),
        term_variables(ExistentialVars0, ExistentialVars),
-       lists:append(Witnesses0, Witnesses, ExistentialVars),
+       free_witnesses(Witnesses0, ExistentialVars, Witnesses),
        expand_goal(M:Goal2, M, Goal3),
        findall(Witnesses-Template, Goal3, PairedSolutions)
     ;  Witnesses = Witnesses0,
        findall(Witnesses-Template, Goal, PairedSolutions)
     ).
 
+
+:- non_counted_backtracking free_witnesses/3.
+
+% the free variables of the goal that are not bound by ^ : those the
+% solutions are grouped by.
+free_witnesses([], _, []).
+free_witnesses([V|Vs], ExistentialVars, Witnesses) :-
+    (  lists:member(E, ExistentialVars), E == V ->
+       Witnesses = Witnesses1
+    ;  Witnesses = [V|Witnesses1]
+    ),
+    free_witnesses(Vs, ExistentialVars, Witnesses1).
 
 :- non_counted_backtracking split_by_variant/4.
 
